@@ -108,6 +108,7 @@ func main() {
 		}()
 	}
 	c := newCtx(prop, tier, seed)
+	theCtx = c
 	if replay != "" {
 		c.replayOnly = replay
 		rf, ok := replays[prop]
@@ -119,6 +120,9 @@ func main() {
 		}
 		c.Finish()
 	}
-	fn(c)
+	func() {
+		defer libraryPanic("")
+		fn(c)
+	}()
 	c.Finish()
 }
